@@ -125,6 +125,20 @@ CHECKS = {
         "runtime monitoring: audit-hook fs event log + icontract invariant on NameSelector + offline site checks",
         "3/C10",
     ),
+    "C11": (
+        "exploration",
+        "Runtime monitor over complete FORD runs (forked child): a project with deliberately repeated names carries batteries of "
+        "[[...]] references in every documented spelling (qualifiers on/off for both parts, kind synonyms, child part, references to "
+        "nothing / to the wrong kind / with a missing first part, some in code spans) in the docs of modules, types, components, "
+        "procedures, program, files, the project file, `summary` and static pages at depth 0 and 2, each bracketed by unique markers; on "
+        "every page where a marker pair occurs the <a> between them is resolved from that page and the element it lands on must carry "
+        "the tracer word of an entity allowed by an independent implementation of the documented lookup; plain text + warning for "
+        "references to nothing; verbatim text in code spans.",
+        "Several equally named candidates at the deciding level are all accepted (documented as undefined); dummy arguments are not link "
+        "targets (they have no anchors); first-part qualifiers that are not child kinds are looked up project-wide.",
+        "runtime monitoring: reference-model oracle (documented lookup) over links found on generated pages via marker words",
+        "3/C11",
+    ),
     "C13": (
         "exploration",
         "Runtime monitor over complete FORD runs with graphs on (forked child): generated projects with known module-use, "
